@@ -8,6 +8,7 @@
 package main
 
 import (
+	"context"
 	"database/sql"
 	"encoding/json"
 	"fmt"
@@ -111,17 +112,19 @@ func (M6) TableName() string { return "t6" }
 
 // FDesc: what the harness author wrote for a field (NOT read back from gorm's parsed schema).
 type FDesc struct {
-	ColTag bool `json:"coltag"` // an explicit column: tag
-	DBDef  bool `json:"dbdef"`  // default:(expr) — a database-side default gorm does not parse
-	LitDef bool `json:"litdef,omitempty"` // default:0 / default:'' — a literal default equal to the zero value (changes nothing)
-	Name string `json:"name"`
-	Col  string `json:"col"`  // physical column of the hand-made table (exists even for ignored fields)
-	Kind string `json:"kind"` // int | str | time | unix | milli
-	Dash string `json:"dash"` // "" | - | all | migration
-	RO   string `json:"ro"`   // "" | -> | ->:false
-	RW   string `json:"rw"`   // "" | <- | create | update | false | create,update
-	PK   bool   `json:"pk"`
-	Auto string `json:"auto"` // "" | create | update
+	ColTag bool   `json:"coltag"`           // an explicit column: tag
+	DBDef  bool   `json:"dbdef"`            // default:(expr) — a database-side default gorm does not parse
+	GoType string `json:"gotype,omitempty"` // generated types: Go type of the field when not the default of its kind
+	//   int kinds: "" int64 | int | int32 | uint | uint32 | uint64 ; time kind: "" time.Time | ptime *time.Time
+	LitDef bool   `json:"litdef,omitempty"` // default:0 / default:'' — a literal default equal to the zero value (changes nothing)
+	Name   string `json:"name"`
+	Col    string `json:"col"`  // physical column of the hand-made table (exists even for ignored fields)
+	Kind   string `json:"kind"` // int | str | time | unix | milli
+	Dash   string `json:"dash"` // "" | - | all | migration
+	RO     string `json:"ro"`   // "" | -> | ->:false
+	RW     string `json:"rw"`   // "" | <- | create | update | false | create,update
+	PK     bool   `json:"pk"`
+	Auto   string `json:"auto"` // "" | create | update
 }
 type TDesc struct {
 	Table   string
@@ -275,10 +278,13 @@ func dynType(table string, fields []FDesc) TDesc {
 			ty = reflect.TypeOf(uint(0))
 		case f.Kind == "str":
 			ty = reflect.TypeOf("")
+		case f.Kind == "time" && f.GoType == "ptime":
+			ty = reflect.TypeOf(&time.Time{})
 		case f.Kind == "time":
 			ty = reflect.TypeOf(time.Time{})
 		default:
-			ty = reflect.TypeOf(int64(0))
+			ty = map[string]reflect.Type{"": reflect.TypeOf(int64(0)), "int": reflect.TypeOf(int(0)), "int32": reflect.TypeOf(int32(0)),
+				"uint": reflect.TypeOf(uint(0)), "uint32": reflect.TypeOf(uint32(0)), "uint64": reflect.TypeOf(uint64(0))}[f.GoType]
 		}
 		def := strings.ToLower(f.Name)
 		if f.Name == "CreatedAt" {
@@ -298,6 +304,20 @@ func typeOf(in Input) TDesc {
 		return dynType(in.DynTable, in.Dyn)
 	}
 	return types[in.Type]
+}
+
+// convType picks the Go type of a conventional (by name) or tagged tracked time field: every admissible one
+func convType(r *lib.Rng, f *FDesc) {
+	switch f.Kind {
+	case "time":
+		if r.Chance(1, 3) {
+			f.GoType = "ptime"
+		}
+	case "unix": // seconds fit every integer type
+		f.GoType = lib.Pick(r, []string{"", "int", "int32", "uint", "uint32", "uint64"})
+	case "milli", "nano":
+		f.GoType = lib.Pick(r, []string{"", "uint64"})
+	}
 }
 
 var dynCount int
@@ -336,13 +356,15 @@ func genType(r *lib.Rng) (string, []FDesc) {
 	}
 	if r.Chance(2, 3) {
 		f := FDesc{Name: "CreatedAt", Col: "created_at", Kind: lib.Pick(r, []string{"time", "time", "unix"}), Auto: "create"}
+		convType(r, &f)
 		if r.Chance(1, 3) {
 			perm(&f)
 		}
 		fs = append(fs, f)
 	}
 	if r.Chance(3, 4) {
-		f := FDesc{Name: "UpdatedAt", Col: "updated_at", Kind: lib.Pick(r, []string{"time", "time", "unix", "milli", "nano"}), Auto: "update"}
+		f := FDesc{Name: "UpdatedAt", Col: "updated_at", Kind: lib.Pick(r, []string{"time", "time", "unix", "unix", "milli", "nano"}), Auto: "update"}
+		convType(r, &f)
 		if r.Chance(1, 3) {
 			perm(&f)
 		}
@@ -379,28 +401,32 @@ type Row struct {
 	PV []PV  `json:"pv"` // struct payload: every non-key field exactly once
 }
 type Input struct {
-	Dyn      []FDesc `json:"dyn,omitempty"` // a generated model type (reflect.StructOf); nil = types[Type]
-	DynTable string  `json:"dyn_table,omitempty"`
-	Type     int     `json:"type"`
-	Kind     string  `json:"kind"` // create | create_batch | create_map | upsert_all | upsert_cols | upsert_nothing | save | update | updates_struct | updates_map | update_column | update_columns_struct | update_columns_map
-	Selects  []SItem `json:"selects"`
-	Omits    []SItem `json:"omits"`
-	Rows     []Row   `json:"rows"`     // struct payload(s); map payload = Rows[0].PV with spellings
-	ModelKey int64   `json:"model_key"` // Model(&T{ID: k}), 0 = Model(&T{})
+	Dyn        []FDesc `json:"dyn,omitempty"` // a generated model type (reflect.StructOf); nil = types[Type]
+	DynTable   string  `json:"dyn_table,omitempty"`
+	Type       int     `json:"type"`
+	Kind       string  `json:"kind"` // create | create_batch | create_map | upsert_all | upsert_cols | upsert_nothing | save | update | updates_struct | updates_map | update_column | update_columns_struct | update_columns_map
+	Selects    []SItem `json:"selects"`
+	Omits      []SItem `json:"omits"`
+	Rows       []Row   `json:"rows"`                  // struct payload(s); map payload = Rows[0].PV with spellings
+	ModelKey   int64   `json:"model_key"`             // Model(&T{ID: k}), 0 = Model(&T{})
 	ModelSlice []int64 `json:"model_slice,omitempty"` // Model(&[]T{{ID: k}, ...}) (0 = key-less element); nil = a struct
-	ModelLoc int64   `json:"model_loc"` // composite key: Model(&T{ID: k, Locale: locales[ModelLoc]})
-	WhereIDs []int64 `json:"where_ids"` // Where("rid IN ?", rows); nil = no Where
-	HasWhere bool    `json:"has_where"`
-	Cols     []int   `json:"cols"`  // upsert_cols: DoUpdates columns (field indexes)
-	Batch    int     `json:"batch"` // create_batch: CreateInBatches size (0 = Create(&slice))
-	Ptr      bool    `json:"ptr"`   // updates_struct: pass a pointer to the payload struct
+	ModelLoc   int64   `json:"model_loc"`             // composite key: Model(&T{ID: k, Locale: locales[ModelLoc]})
+	WhereIDs   []int64 `json:"where_ids"`             // Where("rid IN ?", rows); nil = no Where
+	HasWhere   bool    `json:"has_where"`
+	Cols       []int   `json:"cols"`  // upsert_cols: DoUpdates columns (field indexes)
+	Batch      int     `json:"batch"` // create_batch: CreateInBatches size (0 = Create(&slice))
+	Ptr        bool    `json:"ptr"`   // updates_struct: pass a pointer to the payload struct
 	// foc_assign / foi_assign: [Model(&T{}).]Where(rows).[Attrs(map).]Assign(map = Rows[0]).FirstOrCreate/FirstOrInit
-	ChainModel bool `json:"chain_model"`
-	NoReturn   bool `json:"no_returning"`          // dialector without RETURNING
-	MapPtr     bool `json:"map_ptr,omitempty"`     // create_map: Create(&m); create_maps: Create(ms) by value
+	ChainModel bool   `json:"chain_model"`
+	NoReturn   bool   `json:"no_returning"`         // dialector without RETURNING
+	MapPtr     bool   `json:"map_ptr,omitempty"`    // create_map: Create(&m); create_maps: Create(ms) by value
 	BatchMode  string `json:"batch_mode,omitempty"` // create_batch: "" CreateInBatches/Create | session: Session{CreateBatchSize}
-	Returning  bool `json:"returning,omitempty"`   // updates: Clauses(clause.Returning{}) on the chain
-	Attrs      *Row `json:"attrs,omitempty"`
+	Returning  bool   `json:"returning,omitempty"`
+	// CloneStep: what stands between Select/Omit and the finisher: "" nothing | session Session(&Session{}) |
+	// ctx WithContext | tx Begin() ... Commit() ; CloneAt: "end" after Omit | "mid" between Model/Where and Select
+	CloneStep string `json:"clone_step,omitempty"`
+	CloneAt   string `json:"clone_at,omitempty"` // updates: Clauses(clause.Returning{}) on the chain
+	Attrs     *Row   `json:"attrs,omitempty"`
 }
 type Cell struct {
 	Row  int64  `json:"row"`
@@ -451,6 +477,14 @@ func payValue(f FDesc, j int, zero bool) interface{} {
 		return time.Time{}
 	}
 	return base.Add(time.Duration(700+j) * time.Second)
+}
+
+// payRepr: how the payload's value of field j reads back (the zero value of a *time.Time is NULL)
+func payRepr(f FDesc, j int, zero bool) string {
+	if zero && f.GoType == "ptime" {
+		return "NULL"
+	}
+	return repr(payValue(f, j, zero))
 }
 func repr(v interface{}) string {
 	switch x := v.(type) {
@@ -629,15 +663,26 @@ func buildStruct(t TDesc, r Row) reflect.Value {
 		fv := v.FieldByName(f.Name)
 		switch x := payValue(f, pv.Field, pv.Zero).(type) {
 		case int64:
-			fv.SetInt(x)
+			if k := fv.Kind(); k == reflect.Uint || k == reflect.Uint32 || k == reflect.Uint64 {
+				fv.SetUint(uint64(x))
+			} else {
+				fv.SetInt(x)
+			}
 		case string:
 			fv.SetString(x)
 		case time.Time:
-			fv.Set(reflect.ValueOf(x))
+			if fv.Kind() == reflect.Ptr {
+				if !pv.Zero {
+					fv.Set(reflect.ValueOf(&x))
+				}
+			} else {
+				fv.Set(reflect.ValueOf(x))
+			}
 		}
 	}
 	return p
 }
+
 var rawDB *gorm.DB // handle used to build subquery values
 
 func formed(pv PV, v interface{}) interface{} {
@@ -726,6 +771,21 @@ func run(e *env, in Input) (o Obs) {
 	if in.HasWhere {
 		tx = tx.Where("rid IN ?", in.WhereIDs) // rid = identity of the stored row (= its key for single-key types)
 	}
+	var began *gorm.DB
+	cloneStep := func() {
+		switch in.CloneStep {
+		case "session":
+			tx = tx.Session(&gorm.Session{})
+		case "ctx":
+			tx = tx.WithContext(context.Background())
+		case "tx":
+			tx = tx.Begin()
+			began = tx
+		}
+	}
+	if in.CloneAt == "mid" {
+		cloneStep()
+	}
 	if len(in.Selects) > 0 {
 		var rest []interface{}
 		for _, s := range in.Selects[1:] {
@@ -740,6 +800,14 @@ func run(e *env, in Input) (o Obs) {
 		}
 		tx = tx.Omit(os...)
 	}
+	if in.CloneAt != "mid" {
+		cloneStep()
+	}
+	defer func() { // a transaction opened as clone step and still open (a panic): give the connection back
+		if began != nil {
+			began.Rollback()
+		}
+	}()
 	var res *gorm.DB
 	switch in.Kind {
 	case "create":
@@ -864,6 +932,14 @@ func run(e *env, in Input) (o Obs) {
 		o.Err = res.Error.Error()
 	}
 	o.RA = res.RowsAffected
+	if began != nil { // end the transaction before the table is read back on the single connection
+		if res.Error != nil {
+			began.Rollback()
+		} else {
+			began.Commit()
+		}
+		began = nil
+	}
 
 	after, err := e.dump(t)
 	if err != nil {
@@ -930,7 +1006,7 @@ func run(e *env, in Input) (o Obs) {
 			kind := "oth"
 			if nv == nowRepr(f) {
 				kind = "now"
-			} else if z, ok := pay[j]; ok && nv == repr(payValue(f, j, z)) {
+			} else if z, ok := pay[j]; ok && nv == payRepr(f, j, z) {
 				kind = "pay"
 			} else if f.PK && nv == fmt.Sprint(payID) {
 				kind = "pay"
@@ -1090,6 +1166,7 @@ func nonKey(t TDesc) []int {
 	}
 	return out
 }
+
 // permOf: the permission flags of a field, used ONLY to keep generated inputs inside the stated
 // domain (explicit DoUpdates lists, known-finding signature); the checker never sees it.
 func permOf(f FDesc) (creatable, updatable bool) {
@@ -1145,6 +1222,7 @@ func structRow(r *lib.Rng, t TDesc, id int64, pzNum, pzDen int, edge bool) Row {
 	}
 	return row
 }
+
 var mapRowUpdate bool // the map is an update payload: value forms and column-less fields (by Go name) allowed
 
 func mapRow(r *lib.Rng, t TDesc, id int64, n int, edge bool) Row {
@@ -1495,6 +1573,10 @@ func genInput(r *lib.Rng, edge bool, dyn *Input) Input {
 	}
 	// dimensions independent of the finisher
 	in.NoReturn = r.Chance(1, 3)
+	if r.Chance(2, 5) { // a statement-cloning step between the chain and the finisher
+		in.CloneStep = lib.Pick(r, []string{"session", "ctx", "tx"})
+		in.CloneAt = lib.Pick(r, []string{"end", "end", "mid"})
+	}
 	isUpd := strings.HasPrefix(in.Kind, "update")
 	switch in.Kind {
 	case "create_map":
@@ -1550,7 +1632,7 @@ func shape(in Input) string {
 			fmt.Fprintf(&sb, "%d%s%s,", pv.Field, z, pv.Spell)
 		}
 	}
-	fmt.Fprintf(&sb, "|nr%v mp%v bm%s rt%v", in.NoReturn, in.MapPtr, in.BatchMode, in.Returning)
+	fmt.Fprintf(&sb, "|nr%v mp%v bm%s rt%v cl%s%s", in.NoReturn, in.MapPtr, in.BatchMode, in.Returning, in.CloneStep, in.CloneAt)
 	fmt.Fprintf(&sb, "|k%d.%d%v|w%v%d|c%v", in.ModelKey, in.ModelLoc, in.ModelSlice, in.HasWhere, len(in.WhereIDs), in.Cols)
 	return sb.String()
 }
@@ -1648,6 +1730,14 @@ func main() {
 		}
 		out.Count("changed_cells", fmt.Sprint(len(o.Cells)))
 		out.Count("dialect_returning", fmt.Sprint(!in.NoReturn))
+		out.Count("clone_step", in.CloneStep+"@"+in.CloneAt)
+		if in.Dyn != nil {
+			for _, f := range in.Dyn {
+				if f.Auto != "" {
+					out.Count("tracked_field_type", f.Name+":"+f.Kind+":"+f.GoType)
+				}
+			}
+		}
 		for _, row := range in.Rows {
 			for _, pv := range row.PV {
 				if pv.Form != "" {
@@ -1723,6 +1813,6 @@ func main() {
 		}
 		add(kind, in)
 	}
-	out.Extra["rule"] = "a case = one write finisher (Create, Create(&slice)/CreateInBatches, Create from map, upsert UpdateAll / DoUpdates(cols) / DoNothing, Save (also of a pointer to the pointer), Save of a slice mixing stored and fresh keys, Update, Updates struct|map, UpdateColumn, UpdateColumns struct|map, Create(&[]map) with per-key column/field spelling, [Model(&T{}).]Where(2-3 rows).Assign(map).FirstOrCreate|FirstOrInit on a found record) on one of six fixed hand-written model types or (half of the cases) on a GENERATED model type built with reflect.StructOf: key + 3-6 string/int fields, each with an independent random choice of '-' / '-:all' / '-:migration', '->' / '->:false' and '<-' / '<-:create' / '<-:update' / '<-:false' / '<-:create,update', default or custom column, a database-side default `default:(expr)` on 1/4 of the fields, optional CreatedAt / UpdatedAt / Touched tracked fields as time.Time, unix seconds or milliseconds with random permissions. The fixed types (together they carry every permission tag <-:create <-:update <-:false <- -> ->:false ->;<-:create - -:migration -:all <-:create,update, custom column names, and auto-time fields as time.Time / unix seconds / milliseconds with and without write permission)) x random Select/Omit lists (0-3 items: '*', 'tbl.*', struct-field spelling, column spelling, 'tbl.col', unknown name) x payload with zero and non-zero entries (struct: every field; map: 1-4 keys in column or field spelling) x model key (a struct, or a slice of 2-3 structs mixing keyed and key-less elements in every order, always with a Where) and/or Where(row IN subset) selecting a strict subset of the 4 stored rows; the seventh fixed type M7 has a COMPOSITE primary key (ID, Locale) whose stored rows share members pairwise, updated through model values carrying the whole key or one member. Observed: the cell-by-cell diff of the table (raw SELECT) with each changed cell classified now / payload value / other, and gorm's parsed permission flags. Domain: map keys name existing columns and (for updates) never the primary key; DoUpdates(cols) runs without Select/Omit; the struct payload is of the model type with a zero key; updates always carry a model key or a Where; explicit DoUpdates lists name only columns with create and update permission. distinct = distinct (type, finisher, select, omit, payload zero pattern and spelling, targeting); non-trivial = some cell changed and (a Select/Omit is present or the type carries permission tags)."
+	out.Extra["rule"] = "a case = one write finisher (Create, Create(&slice)/CreateInBatches, Create from map, upsert UpdateAll / DoUpdates(cols) / DoNothing, Save (also of a pointer to the pointer), Save of a slice mixing stored and fresh keys, Update, Updates struct|map, UpdateColumn, UpdateColumns struct|map, Create(&[]map) with per-key column/field spelling, [Model(&T{}).]Where(2-3 rows).Assign(map).FirstOrCreate|FirstOrInit on a found record) on one of six fixed hand-written model types or (half of the cases) on a GENERATED model type built with reflect.StructOf: key + 3-6 string/int fields, each with an independent random choice of '-' / '-:all' / '-:migration', '->' / '->:false' and '<-' / '<-:create' / '<-:update' / '<-:false' / '<-:create,update', default or custom column, a database-side default `default:(expr)` on 1/4 of the fields, optional CreatedAt / UpdatedAt / Touched tracked fields of every admissible Go type (time.Time, *time.Time, int, int32, int64, uint, uint32, uint64; seconds by name or tag, milli / nano by tag) with random permissions. The fixed types (together they carry every permission tag <-:create <-:update <-:false <- -> ->:false ->;<-:create - -:migration -:all <-:create,update, custom column names, and auto-time fields as time.Time / unix seconds / milliseconds with and without write permission)) x random Select/Omit lists (0-3 items: '*', 'tbl.*', struct-field spelling, column spelling, 'tbl.col', unknown name) x a statement-cloning step (Session, WithContext, Begin...Commit) between the chain / Select / Omit and the finisher in 2/5 of the cases x payload with zero and non-zero entries (struct: every field; map: 1-4 keys in column or field spelling) x model key (a struct, or a slice of 2-3 structs mixing keyed and key-less elements in every order, always with a Where) and/or Where(row IN subset) selecting a strict subset of the 4 stored rows; the seventh fixed type M7 has a COMPOSITE primary key (ID, Locale) whose stored rows share members pairwise, updated through model values carrying the whole key or one member. Observed: the cell-by-cell diff of the table (raw SELECT) with each changed cell classified now / payload value / other, and gorm's parsed permission flags. Domain: map keys name existing columns and (for updates) never the primary key; DoUpdates(cols) runs without Select/Omit; the struct payload is of the model type with a zero key; updates always carry a model key or a Where; explicit DoUpdates lists name only columns with create and update permission. distinct = distinct (type, finisher, select, omit, payload zero pattern and spelling, targeting); non-trivial = some cell changed and (a Select/Omit is present or the type carries permission tags)."
 	lib.Must(out.Flush())
 }
